@@ -141,6 +141,17 @@ func serialJudge(env *core.Env, check string, sc sched.Scenario, claims bool) fu
 					return check + " kind=winner-not-the-claimant", fmt.Sprintf("%s was told it won %s but claimed_by=%q", agent, title(id), sh.ClaimedBy)
 				}
 			}
+			if len(won) == 0 && strings.Contains(sc.Name, "one-ready") {
+				allAnswered := true
+				for i, res := range ex.Results {
+					if opClass(sc.Procs[i]) == "claim" && (res.Exit != 0 || outs[i].Reply != "no_ready") {
+						allAnswered = false
+					}
+				}
+				if allAnswered {
+					return check + " kind=nothing-handed-out-although-a-task-is-ready", fmt.Sprintf("the store of this scenario has exactly one ready task, every claimer answered no_ready: %v", desc)
+				}
+			}
 			if len(won) > 0 && (strings.Contains(sc.Name, "S_none") || strings.Contains(sc.Name, "nothing-ready")) {
 				return check + " kind=task-handed-out-although-nothing-is-ready", fmt.Sprintf("the store of this scenario has no ready task (and no command of the scenario makes one ready), yet: %v", desc)
 			}
@@ -224,6 +235,26 @@ func runC01(env *core.Env) {
 		l.Create(SynItem{ID: core.IDFor(9801), Title: "from the future"})
 		ahead := core.Store{".ergo/plans.jsonl": l.Bytes(), ".ergo/lock": nil}
 		add("2-claimers+compact/S_created-ahead-of-the-clock", ahead, claimReq("a1"), claimReq("a2"), core.R("", "--json", "compact"))
+	}
+	{
+		// exactly one ready task, and it is ready for a reason an index can get wrong: its epic depends on an epic that has no
+		// tasks at all (complete by definition) and on one whose only child is canceled; its own dependency is done
+		l := newSynLog()
+		a, a2, b := core.IDFor(9821), core.IDFor(9822), core.IDFor(9823)
+		t, d, x := core.IDFor(9824), core.IDFor(9825), core.IDFor(9826)
+		l.Create(SynItem{ID: a, Epic: true, Title: "A (no tasks)"})
+		l.Create(SynItem{ID: a2, Epic: true, Title: "A2 (one canceled task)"})
+		l.Create(SynItem{ID: b, Epic: true, Title: "B"})
+		l.Create(SynItem{ID: x, Title: "x canceled", In: a2})
+		l.Create(SynItem{ID: d, Title: "d done"})
+		l.Create(SynItem{ID: t, Title: "t the one ready task", In: b})
+		l.Link(b, a)
+		l.Link(b, a2)
+		l.Link(t, d)
+		l.State(x, "canceled")
+		l.State(d, "done")
+		one := core.Store{".ergo/plans.jsonl": l.Bytes(), ".ergo/lock": nil}
+		add("2-claimers/one-ready", one, claimReq("a1"), claimReq("a2", "--epic", b))
 	}
 	if env.Thorough() {
 		add("4-claimers/S_A", f.SA, claimReq("a1"), claimReq("a2"), claimReq("a3"), claimReq("a4"))
